@@ -103,12 +103,12 @@ prop('C08', units=['drv', 'ord', 'agg', 'bk'], level='proof',
      not_covered=['run_acb_app_to_delta_models driver loop (by-value HashMap loop inside async I/O code)'],
      witnesses=['D15'])
 
-prop('C09', units=['ord', 'costs', 'agg'], level='proof',
+prop('C09', units=['ord', 'costs', 'agg', 'bk'], level='proof',
      technique='Verus with hash iteration modelled as an arbitrary permutation: expand(global splits) is a function of the input (unique id-sorted enumeration), yearly max day = earliest best day, aggregate sums order-independent, sorted key lists',
      level_text='Deductive proof (Verus): each function that turns a hash container into ordered output satisfies a seed-free postcondition, so no result depends on iteration order. Byte-level output of tabled/csv and the render loop order are watched by witnesses only.',
      level_note=BK_NOTE + ' iteration order of std hash containers is unspecified in every assumed iterator contract.',
      not_covered=['bytes produced by tabled / csv writers', 'order of securities in run_acb_app_to_render_model (witness D2c)',
-                  'SfLA affiliate order in get_delta_superficial_loss_info (sort_affs hole states permutation only)'],
+                  ],
      witnesses=['D2a', 'D2b', 'D2c'])
 
 prop('C10', units=['summary', 'bk'], level='proof',
